@@ -206,6 +206,8 @@ def key_of(prop, cls, rec):
             if not ok:
                 sit.add("state=%s,ipfs=%s,status=%s,listing=%s" % (s, ip, st, sa))
         detail = ";".join(sorted(sit))
+        if cls == "truthful" and not sit and rec.get("res") == "fullq":
+            detail = "rejected-%s-not-shown-as-error:status=%s" % (a.get("name"), rec["status"].get(a.get("cid")))
     elif cls == "nodrop":
         detail = a["name"]
     elif cls == "filter":
